@@ -106,7 +106,7 @@ type PitOutRecord struct {
 
 // CsEntry is an entry in a thread's CS.
 type CsEntry interface {
-	Index() uint64 // the hash of the entry, for fast lookup
+	Index() uint64 // the number that identifies the entry to the replacement policy
 	StaleTime() time.Time
 	Copy() (*spec.Data, []byte, error)
 }
